@@ -477,7 +477,7 @@ def check_solve_order(ctx, ck, rule='R-FRESH.solve-order'):
     prog = ctx.program
     from ..symx import SymExec
     f = m.func('mininec.Mininec.compute')
-    paths = [p_ for p_ in SymExec(ctx, f, bind_loops=True, private_only=True, max_paths=2000).run() if p_.end != 'raise']
+    paths = [p_ for p_ in SymExec(ctx, f, bind_loops=True, private_only=True, effects=True, max_paths=2000).run() if p_.end != 'raise']
     ck.floor('paths through compute', len(paths), 1)
     seqs = set()
     pw_ok = True
@@ -523,6 +523,16 @@ def run(ctx, ck):
     ck.rule('R-DET.set-order', 'no order-sensitive iteration over a set')
     ck.rule('R-DET.no-ambient', 'no clock/random/id/environment read unless behind an off-by-default flag')
 
+    # a cached value is not taken while what it is computed from is still being filled
+    ck.rule('R-CACHE.read-while-built', 'no cached_property is read by code from which its sources are still being filled in place')
+    from ..cache import cached_read_while_built
+    hz_, n_cp = cached_read_while_built(ctx)
+    for g_, rf_, ms_ in hz_:
+        ck.ob('R-CACHE.read-while-built', '%s|%s' % (g_.qual, rf_.qual), False, rf_.loc(),
+              '%s reads the cached %s while %s (reachable from it) still fills the collections it is computed from: '
+              'what is added later never shows up in the cached value' % (rf_.qual, g_.qual, ms_[0]))
+    ck.ob('R-CACHE.read-while-built', 'package', True, 'mininec', '%d cached properties examined' % n_cp)
+    ck.floor('cached properties', n_cp, 10)
     # ---------------------------------------------------------------- D1
     sites, n = run_cache_rule(ctx, ck)
     ck.floor('memo sites', n, 26)
